@@ -1333,7 +1333,25 @@ void f_bind (void) {
     error ("Permission of binding denied by master object.\n");
 
   new_fp = ALLOCATE (funptr_t, TAG_FUNP, "f_bind");
-  *new_fp = *old_fp;
+  /* A function pointer block is only as large as its kind needs (see make_efun_funp(),
+   * make_simul_funp(), ...): copying a whole funptr_t reads past the end of an efun
+   * or simul_efun pointer. */
+  new_fp->hdr = old_fp->hdr;
+  switch (old_fp->hdr.type & FP_MASK)
+    {
+    case FP_EFUN:
+      new_fp->f.efun = old_fp->f.efun;
+      break;
+    case FP_SIMUL:
+      new_fp->f.simul = old_fp->f.simul;
+      break;
+    case FP_LOCAL:
+      new_fp->f.local = old_fp->f.local;
+      break;
+    default:
+      new_fp->f.functional = old_fp->f.functional;
+      break;
+    }
   new_fp->hdr.ref = 1;		/* the copy has one holder: the stack slot */
   new_fp->hdr.owner = ob;	/* one ref from being on stack */
   if (new_fp->hdr.args)
